@@ -15,6 +15,7 @@ use vrt::json::J;
 static GLOBAL: vrt::VAlloc = vrt::VAlloc;
 
 static EXECS: AtomicUsize = AtomicUsize::new(0);
+static STEPS: AtomicUsize = AtomicUsize::new(0);
 static OUTCOMES: Mutex<BTreeSet<String>> = Mutex::new(BTreeSet::new());
 static SIGS: Mutex<Option<HashSet<u64>>> = Mutex::new(None);
 
@@ -287,6 +288,7 @@ fn run_set(set: &ProgSet) -> SetResult {
             let sig = bridge::SIG.with(|s| {
                 let mut h = std::collections::hash_map::DefaultHasher::new();
                 s.borrow().hash(&mut h);
+                STEPS.fetch_add(s.borrow().len(), Ordering::Relaxed);
                 h.finish()
             });
             SIGS.lock().unwrap().as_mut().unwrap().insert(sig);
@@ -409,6 +411,7 @@ fn main() {
     o.set("sets_total", J::i(sets.len()));
     o.set("sets_done", J::i(done));
     o.set("executions", J::i(execs));
+    o.set("atomic_steps", J::i(STEPS.load(Ordering::Relaxed)));
     o.set("max_executions_one_set", J::i(max_execs));
     o.set("distinct_schedule_signatures", J::i(sigs));
     o.set("distinct_outcomes_summed", J::i(outcomes_total));
